@@ -668,9 +668,15 @@ def call_refined(old, marked, step):
         signal.signal(signal.SIGALRM, prev)
 
 
-def marked_arg(rng, marked):
-    """the same marked set in the forms callers use: int32/int64 array, list, unsorted"""
+def marked_arg(rng, marked, old_cls=None, nt=0):
+    """the same marked set in the forms callers use: int32/int64 array, list, unsorted, boolean mask"""
     r = rng.random()
+    if old_cls in ("MeshTri1", "MeshTri2") and marked and nt and r < 0.15:
+        # a boolean mask over the cells, e.g. refined(eta > theta * eta.max()) (triangles only: the other classes
+        # reject masks on the pinned tree)
+        mask = np.zeros(nt, dtype=bool)
+        mask[list(marked)] = True
+        return mask
     if r < 0.4:
         return np.array(marked, dtype=np.int64)
     if r < 0.7:
@@ -682,7 +688,8 @@ def marked_arg(rng, marked):
 
 def run_case(ctx, old, marked, info, step="adaptive", history=None, check_tags=True):
     try:
-        new = call_refined(old, None if marked is None else marked_arg(ctx.rng, marked), step)
+        new = call_refined(old, None if marked is None else
+                           marked_arg(ctx.rng, marked, type(old).__name__, int(old.t.shape[1])), step)
     except Timeout:
         ctx.count("fail:timeout:%s:%s" % (type(old).__name__, step))
         ctx.violation("refined() did not return within 60 s", {"mesh": mesh_record(old), "marked": marked, "step": step,
